@@ -309,6 +309,85 @@ func c16ExprRun(c *fw.Ctx, order []int) {
 	c.Count("transitions", int64(len(order)*2+1)*int64(len(c16ExprInputs)))
 }
 
+// ---- width pump: k symbols with k DIFFERENT first characters (one node with k children), in three
+// registration orders; every registered symbol, its bare first character and an unregistered
+// continuation are read back after every further registration of the last eight
+
+var c16WideChars = []rune("<>=!+-*/%^&|~?:;.,@#$(){}[]_abcdefghijklmnopqrstuvwxyzABCDEFGHIJ¡§«±µ»¿×÷ÿ")
+
+func c16Wide(c *fw.Ctx, k int, order int) {
+	if k > len(c16WideChars) {
+		k = len(c16WideChars)
+	}
+	idx := make([]int, k)
+	for i := range idx {
+		switch order {
+		case 0:
+			idx[i] = i
+		case 1:
+			idx[i] = k - 1 - i
+		default: // outside-in
+			if i%2 == 0 {
+				idx[i] = i / 2
+			} else {
+				idx[i] = k - 1 - i/2
+			}
+		}
+	}
+	st := generic.NewGenericSymbolState()
+	reg := map[string]int{}
+	check := func(after string) bool {
+		for _, i := range idx {
+			ch := string(c16WideChars[i])
+			for _, in := range []string{ch + "=z", ch + "z", ch + "==", ch} {
+				rin := []rune(in)
+				wantText, wantType := c16ExprRef(reg, rin)
+				var tok *tokenizers.Token
+				var rest []rune
+				pv := fw.Try(func() {
+					sc := rio.NewStringScanner(in)
+					tok = st.NextToken(sc, nil)
+					for j := 0; j < len(rin)+2; j++ {
+						r := sc.Read()
+						if r == -1 {
+							break
+						}
+						rest = append(rest, r)
+					}
+				})
+				c.Eval(1)
+				if pv != nil || tok == nil {
+					c.Violation("symbol-read-panic:wide-table", "table of %d first characters (order %d) after %s: NextToken(%q) panicked: %v", k, order, after, in, fw.PanicStr(pv))
+					return false
+				}
+				if tok.Value() != wantText || tok.Type() != wantType || string(rest) != string(rin[len([]rune(wantText)):]) {
+					c.Violation("wide-symbol-table", "table of %d different first characters (registration order %d) after %s: NextToken(%q) = %q type %d leaving %q; longest registered prefix is %q with type %d", k, order, after, in, tok.Value(), tok.Type(), string(rest), wantText, wantType)
+					return false
+				}
+			}
+		}
+		return true
+	}
+	for n, i := range idx {
+		sym := string(c16WideChars[i]) + "="
+		st.Add(sym, 200+i)
+		reg[sym] = 200 + i
+		if i%3 == 0 {
+			one := string(c16WideChars[i])
+			st.Add(one, 300+i)
+			reg[one] = 300 + i
+		}
+		if n >= len(idx)-8 || n%8 == 7 {
+			if !check(fmt.Sprintf("%d registrations, the last one %q", n+1, sym)) {
+				return
+			}
+		}
+	}
+	c.Nontrivial()
+	c.Count("states", int64(k))
+	c.Count("transitions", int64(k*4))
+}
+
 var c16Cache = map[string]*c16Cfg{}
 
 func c16Get(tier, which string) *c16Cfg {
@@ -380,7 +459,7 @@ func init() {
 		ID:    "C16",
 		Level: "model_checking",
 		Rule: "symbol sets = subsets of the 14 strings of length 1..3 over {a,b} (own token type each), every registration order for sets of <=3 symbols (two orders otherwise); on each real tree every sequence of reads over all inputs of bounded length over {a,b,c}, " +
-			"and for every further candidate: read all inputs, Add it, read all inputs again; each read compared with 'longest registered prefix, else one character' for text, type and consumed length; same over {a,я} for the >U+00FF child lookup; plus sets of <=3 symbols of length up to 5 (a, aa, aaa, aaaa, aaab, aab, ab, aaaaa) in every order with inputs up to length 4, where a later-registered shorter symbol must be honoured by deeper nodes; plus the expression tokenizer's own symbol state: its default table, every sequence of <=3 (thorough 4) further registrations out of 6 (new symbols, a prefix and an extension of default symbols, a default symbol re-registered with another type), all inputs of length<=4 over {<,>,=,!} after every step, and a NEW expression symbol state that must still read by the default table; non-trivial = tree with >=2 symbols",
+			"and for every further candidate: read all inputs, Add it, read all inputs again; each read compared with 'longest registered prefix, else one character' for text, type and consumed length; same over {a,я} for the >U+00FF child lookup; plus sets of <=3 symbols of length up to 5 (a, aa, aaa, aaaa, aaab, aab, ab, aaaaa) in every order with inputs up to length 4, where a later-registered shorter symbol must be honoured by deeper nodes; plus tables of up to 74 symbols with different first characters (one node with that many children) in three registration orders; plus the expression tokenizer's own symbol state: its default table, every sequence of <=3 (thorough 4) further registrations out of 6 (new symbols, a prefix and an extension of default symbols, a default symbol re-registered with another type), all inputs of length<=4 over {<,>,=,!} after every step, and a NEW expression symbol state that must still read by the default table; non-trivial = tree with >=2 symbols",
 		Assume: []string{"trees are rebuilt from scratch for every read sequence (real objects cannot be cloned)"},
 		Spaces: func(tier string) []fw.Space {
 			sp := []fw.Space{}
@@ -399,6 +478,9 @@ func init() {
 			add("aя", 2, "sets-nonlatin-read-pairs")
 			add("deep", 1, "deep-symbols-monotonicity")
 			add("nonlatin3", 1, "three-nonlatin-alphabet")
+			sp = append(sp, fw.Space{Name: "wide-tables", N: int64(len(widthCounts) * 3),
+				Run:  func(c *fw.Ctx, i int64) { c16Wide(c, widthCounts[int(i)/3], int(i)%3) },
+				Repr: func(i int64) string { return fmt.Sprintf("symbols with %d different first characters, registration order %d", widthCounts[int(i)/3], i%3) }})
 			ne := len(c16ExprExtra)
 			depth := 3
 			if tier == "thorough" {
